@@ -117,6 +117,16 @@ CLAIMS: dict[str, dict[str, str]] = {
         "note": NOTE,
         "technique": "override inventory + return-constructor rule, signature LSP vs Lib/_pydatetime.py, recon fidelity",
     },
+    "C12": {
+        "text": "Static rule checking: dispatch-table exhaustiveness (units x {start,end} through the MRO); field "
+                "lattice of all 28 modifier methods (fields below the unit pinned to min / max from the radix table, "
+                "fields at or above taken from self); linear normal form of the decade/century year expressions and "
+                "DateTime/Date agreement; week pairing and setter validation; fold information-flow rule in the "
+                "dispatcher (instance fold cannot reach create() for day-and-above units, is forwarded for "
+                "second/minute/hour). The +-1 microsecond neighbour clauses on DST days are zone data and not claimed.",
+        "note": NOTE,
+        "technique": "dispatch exhaustiveness, field-lattice rule, linear normal forms, fold information flow",
+    },
 }
 
 NOT_APPLICABLE: dict[str, str] = {}
